@@ -889,6 +889,7 @@ impl<'comments> Formatter<'comments> {
             } if name == "True"
                 && annotation.is_none()
                 && kind.is_expect()
+                && !kind.is_backpassing()
                 && patterns.len() == 1 =>
             {
                 header.append(self.case_clause_value(value))
@@ -1163,7 +1164,7 @@ impl<'comments> Formatter<'comments> {
             UntypedExpr::FieldAccess {
                 label, container, ..
             } => self
-                .expr(container, false)
+                .wrap_receiver(container)
                 .append(".")
                 .append(label.as_str()),
 
@@ -1188,15 +1189,7 @@ impl<'comments> Formatter<'comments> {
             UntypedExpr::TupleIndex { index, tuple, .. } => {
                 let suffix = Ordinal(*index + 1).suffix().to_doc();
 
-                let expr_doc = self.expr(tuple, false);
-
-                let maybe_wrapped_expr = if matches!(&**tuple, UntypedExpr::PipeLine { .. }) {
-                    wrap_args(vec![(expr_doc, false)]).group()
-                } else {
-                    expr_doc
-                };
-
-                maybe_wrapped_expr
+                self.wrap_receiver(tuple)
                     .append(".".to_doc())
                     .append((index + 1).to_doc())
                     .append(suffix)
@@ -1392,12 +1385,26 @@ impl<'comments> Formatter<'comments> {
             false
         };
 
-        self.expr(fun, false)
+        self.wrap_receiver(fun)
             .append(wrap_args(
                 args.iter()
                     .map(|a| (self.call_arg(a, needs_curly), needs_curly)),
             ))
             .group()
+    }
+
+    /// What a field access, a tuple index or a call is applied to. They bind tighter than
+    /// operators and pipes, so a receiver made of those keeps its parentheses.
+    fn wrap_receiver<'a>(&mut self, expr: &'a UntypedExpr) -> Document<'a> {
+        let doc = self.expr(expr, false);
+
+        match expr {
+            UntypedExpr::PipeLine { .. }
+            | UntypedExpr::BinOp { .. }
+            | UntypedExpr::UnOp { .. }
+            | UntypedExpr::TraceIfFalse { .. } => wrap_args(vec![(doc, false)]).group(),
+            _ => doc,
+        }
     }
 
     pub fn if_expr<'a>(
